@@ -20,7 +20,7 @@ WITNESS = '<rect id="vf_witness" x="70" y="70" width="20" height="20" fill="#010
 TAGK = {'svg': 'TSvg', 'g': 'TG', 'path': 'TShape', 'rect': 'TShape', 'use': 'TUse', 'symbol': 'TSymbol',
         'clipPath': 'TClipPath', 'mask': 'TMask', 'filter': 'TFilter', 'feImage': 'TFeImage', 'feFlood': 'TFeOther',
         'feOffset': 'TFeOther', 'pattern': 'TPattern', 'linearGradient': 'TGradient', 'radialGradient': 'TGradient',
-        'stop': 'TStop', 'marker': 'TMarker', 'defs': 'TOther', 'text': 'TText', 'tspan': 'TTspan', 'style': 'TStyle'}
+        'a': 'TG', 'stop': 'TStop', 'marker': 'TMarker', 'defs': 'TOther', 'text': 'TText', 'tspan': 'TTspan', 'style': 'TStyle'}
 AKEY = {'href': 'AHref', 'fill': 'AFill', 'stroke': 'AStroke', 'clip-path': 'AClip', 'mask': 'AMask', 'filter': 'AFilter',
         'marker-start': 'AMStart', 'marker-mid': 'AMMid', 'marker-end': 'AMEnd'}
 KIND_ATTR = {'fill': 'fill', 'stroke': 'stroke', 'clip': 'clip-path', 'mask': 'mask', 'filter': 'filter',
@@ -166,8 +166,38 @@ def first_shape(e):
     return None
 
 
-def make_element(typ, eid, kind, place, target, flag):
+WRAPPERS = ['', 'g', 'svg', 'a', 'use', 'symbol', 'switch']
+
+
+def wrap_child(e, sh, wrapper, eid):
+    """the child that carries the reference sits in a container that creates or clones converter state"""
+    if not wrapper or sh not in e.kids:
+        return
+    i = e.kids.index(sh)
+    if wrapper in ('g', 'svg', 'a', 'switch'):
+        e.kids[i] = El(wrapper, kids=[sh])
+    elif wrapper == 'use':
+        sh.id = eid + '_s'
+        e.kids[i] = El('use').add('href', sh.id)
+        e.kids.insert(0, El('defs', kids=[sh]))
+    elif wrapper == 'symbol':
+        e.kids[i] = El('use').add('href', eid + '_y')
+        e.kids.insert(0, El('symbol', eid + '_y', kids=[sh]))
+
+
+def make_element(typ, eid, kind, place, target, flag, wrapper='', extra_child=False):
     """An element `eid` of concrete type `typ` carrying one reference of `kind` to `target`."""
+    e = _make_element(typ, eid, kind, place, target, flag)
+    if kind in KIND_ATTR and place == 'child' and e.tag != 'use':
+        sh = next((k for k in e.kids if k.tag in ('path', 'rect') and any(a == KIND_ATTR[kind] and t == target for a, t, _ in k.links)), None)
+        if sh is not None:
+            wrap_child(e, sh, wrapper, eid)
+            if extra_child and typ != 'filter':
+                e.kids.append(El('path') if typ != 'mask' else El('path').add('fill', None, 'white'))
+    return e
+
+
+def _make_element(typ, eid, kind, place, target, flag):
     e = El(typ, eid, flag=flag, kids=base_content(typ, eid))
     if kind is None:
         return e
@@ -250,7 +280,7 @@ def extra_witnesses(body):
     return [w0] + body + [El('g', kids=[w2])]
 
 
-def cycle_doc(kinds, places, rot=0, via=False, flags=None, use_entry=False):
+def cycle_doc(kinds, places, rot=0, via=False, flags=None, use_entry=False, wrappers=None, extra_child=False, entries=1):
     """simple cycle e0 -> e1 -> ... -> e0; element i carries link kinds[i] to element i+1."""
     n = len(kinds)
     types = resolve_types(kinds, places, rot)
@@ -258,15 +288,22 @@ def cycle_doc(kinds, places, rot=0, via=False, flags=None, use_entry=False):
     ids = ['e%d' % i for i in range(n)]
     body = []
     for i in range(n):
-        body.append(make_element(types[i], ids[i], kinds[i], places[i], ids[(i + 1) % n], flags[i]))
+        body.append(make_element(types[i], ids[i], kinds[i], places[i], ids[(i + 1) % n], flags[i],
+                                 (wrappers or [''] * n)[i], extra_child))
     k_in0 = kinds[-1]
     if via:
         # entered through an element that is not on the cycle
         pre = make_element(types[0] if types[0] != 'use' else 'g', 'pre', k_in0, places[-1], ids[0], True)
         body.append(pre)
-        body += entry_for(k_in0, pre.tag, 'pre', use_entry)
+        ents = entry_for(k_in0, pre.tag, 'pre', use_entry)
     else:
-        body += entry_for(k_in0, body[0].tag, ids[0], use_entry)
+        ents = entry_for(k_in0, body[0].tag, ids[0], use_entry)
+    body += ents
+    # the same definition entered again by further plain shapes (after the first conversion filled the caches)
+    for j in range(1, entries):
+        for x in entry_for(k_in0, (pre.tag if via else body[0].tag), ('pre' if via else ids[0]), False):
+            x.id = 'vf_entry%d' % (j + 1)
+            body.append(x)
     return number(El('svg', kids=extra_witnesses(body)))
 
 
